@@ -110,3 +110,58 @@ def table_replay(cmd_name, drop_ext=None):
         if rv.status == "invalid" and r["verdict"] is True:
             return {"confirmed": True, "outcome": "invalid by the RFC table (%s) but accepted" % rv.reason, "script": data.decode("latin-1")}
     return {"confirmed": False, "outcome": "no generated use of %s shows the difference" % cmd_name}
+
+
+def pushdown_units():
+    """leaf functions of the parser's push-down layer under contract (contracts/pushdown.py): every token kind x the states
+    that matter, symbolic token values, abstract current command"""
+    from contracts import pushdown as pd
+    S = ("contracts.pushdown", "setup")
+    S0 = ("contracts.pushdown", "setup_up")
+    out = []
+    for t in pd.TOKEN_TYPES:
+        out.append(U("PD.argument.%s" % t, "contracts.pushdown", "h_argument", (t,), setup=S))
+        out.append(U("PD.arguments.%s" % t, "contracts.pushdown", "h_arguments", (t,), setup=S))
+        for k in (0, 2):
+            out.append(U("PD.stringlist.%s.pending%d" % (t, k), "contracts.pushdown", "h_stringlist", (t, k), setup=S))
+        for (in_args, nested) in ((False, False), (False, True), (True, True)):
+            out.append(U("PD.command.%s.%s.%s" % (t, "arguments" if in_args else "start", "nested" if nested else "top"),
+                         "contracts.pushdown", "h_command", (t, in_args, nested), setup=S))
+    kinds = ("right_bracket", "right_parenthesis", "right_cbracket")
+    for depth in (0, 1, 2):
+        for top in kinds:
+            for closing in kinds:
+                if depth == 0 and top != kinds[0]:
+                    continue
+                out.append(U("PD.pop_bracket.depth%d.%s.%s" % (depth, top, closing), "contracts.pushdown", "h_pop_bracket",
+                             (depth, top, closing), setup=S0))
+    for top_level in (True, False):
+        for has_rule in (True, False):
+            for prev_ok in (True, False):
+                out.append(U("PD.up.%s.%s.%s" % ("top" if top_level else "nested", "must-follow" if has_rule else "free",
+                                                 "after-if" if prev_ok else "after-keep"),
+                             "contracts.pushdown", "h_up", (top_level, has_rule, prev_ok), setup=S0))
+    out.append(U("PD.up.nested-first-child", "contracts.pushdown", "h_up_nested_first_child", (), setup=S0))
+    for depth in (1, 2, 3):
+        out.append(U("PD.up.chain%d" % depth, "contracts.pushdown", "h_up_chain", (depth,), setup=S0))
+    for depth in (0, 1, 2, 3):
+        for ts in (True, False):
+            out.append(U("PD.completion.depth%d.%s" % (depth, "semicolon" if ts else "nosemicolon"), "contracts.pushdown",
+                         "h_completion", (depth, ts), setup=S0))
+    return out
+
+
+PUSHDOWN_FUNCTIONS = [("sievelib.parser", "Parser.__argument"), ("sievelib.parser", "Parser.__arguments"),
+                      ("sievelib.parser", "Parser.__stringlist"), ("sievelib.parser", "Parser.__command"),
+                      ("sievelib.parser", "Parser.__pop_expected_bracket"), ("sievelib.parser", "Parser.__push_expected_bracket"),
+                      ("sievelib.parser", "Parser.__set_expected"), ("sievelib.parser", "Parser.__up"),
+                      ("sievelib.parser", "Parser.__check_command_completion")]
+PUSHDOWN_TEXT = (" PD -- the leaf functions of the push-down layer (__command, __arguments, __argument, __stringlist, "
+                 "__pop_expected_bracket, __up, __check_command_completion) each under a small-step contract, run on an abstract "
+                 "current command (symbolic answers, every call logged in ghost state) with a symbolic token value, for every "
+                 "token kind x start-of-command / inside-arguments x top-level / nested: a value token reaches the command exactly once "
+                 "as (kind, decoded value) and the command's answer is the parser's; strings inside [ ] are appended in order and the "
+                 "whole list is handed over once; a closing bracket pops exactly its own kind or is refused; a top-level command is "
+                 "recorded once with the pending comments; the completion check never records anything; what a branch does not "
+                 "mention keeps its value (frame). The composition of these steps over a whole token sequence is NOT proved (no "
+                 "global refinement invariant): that is what the bounded enumeration stands in for.")
